@@ -56,6 +56,32 @@ def run(res, args):
                               observed=r["implby"].get(f["case_id"], ""))
     except script.HangFound as h:
         res.broken.append(Broken("the implementation hangs on a generated case; see C06", h.line))
+    # frames written through the register API (connect, reads, streams) for products of every class: after the
+    # device id is known the framing must not change
+    try:
+        from lib import apirun
+        a = apirun.run(res.tier, res.seed, "C10")
+        napi = nbad = 0
+        for cl, ol in zip(a["lines"], a["impl"]):
+            m2 = re.search(r" W=(\S+)", ol)
+            if not m2 or m2.group(1) == "-":
+                continue
+            for fh in m2.group(1).split(","):
+                napi += 1
+                fr = bytes.fromhex(fh)
+                okf = re.fullmatch(rb":[0-9A-F]([0-9A-F]{2})+\n", fr) is not None
+                if okf:
+                    body = fr[1:-1].decode()
+                    okf = (int(body[0], 16) + sum(int(body[i:i + 2], 16) for i in range(1, len(body), 2))) % 256 == 0x55
+                if not okf:
+                    nbad += 1
+                    if nbad <= 3:
+                        res.add_violation("a frame written through the register API is not well-formed: %r" % fr, key="C03:api:" + fh[:40],
+                                          input=cl, observed=ol[:600])
+        res.cov["register_api_frames_judged"] = napi
+        res.cov["register_api_judge_failures"] = nbad
+    except Broken as b:
+        res.broken.append(b)
     if mism and not bad:
         first = [l for l in out.splitlines() if l.startswith("MISMATCH")][:5]
         res.broken.append(Broken("correspondence tx_frame (model) vs frames written by the driver: %d disagreements" % mism,
